@@ -334,7 +334,9 @@ class Engine:
                 return r if r is not None else ("prop", base, name)
             if m:
                 return ("bound", base, m.qual)
-        if ck:
+        if ck and name not in self.instance_stored():
+            # a class-level constant read through an instance -- only when no instance ever assigns that attribute (a dataclass / NamedTuple
+            # default is the initial value of an instance field, not a constant)
             cv, ck2 = M.find_const(ck, name)
             if cv is not None:
                 v = M.const_value(cv, fr["fn"])
@@ -348,6 +350,18 @@ class Engine:
                     return ("c", v)
         ep = p.store.get(("epoch",), 0)
         return ("f0", base, name, ep) if ep else ("f0", base, name)
+
+    def instance_stored(self):
+        """attribute names that are assigned on some object anywhere in the repository"""
+        memo = self.M.__dict__.get("_stored_attrs")
+        if memo is None:
+            memo = set()
+            for tree in self.M.mods.values():
+                for n in ast.walk(tree):
+                    if isinstance(n, ast.Attribute) and isinstance(n.ctx, (ast.Store, ast.Del)) and not (isinstance(n.value, ast.Name) and n.value.id[:1].isupper()):
+                        memo.add(n.attr)
+            self.M.__dict__["_stored_attrs"] = memo
+        return memo
 
     def havoc_fields(self, p):
         """an await point: other coroutines may run, so every field read afterwards is a new value"""
